@@ -1,3 +1,512 @@
-/-! C15 property theorems — stub (not built yet). -/
+import TTModel.C15_MCMC
+import TTGen.C15_Tuning
+import TTProofs.Lemmas.C15_Real
+import TTProofs.Lemmas.C15_Frame
+import Mathlib.Analysis.SpecialFunctions.Log.Basic
+import Mathlib.Analysis.SpecialFunctions.Sqrt
+import Mathlib.Analysis.Calculus.Deriv.Mul
+import Mathlib.Tactic.Positivity
+import Mathlib.Tactic.Linarith
+import Mathlib.Tactic.FieldSimp
+/-!
+# C15 — every MCMC transition is a Metropolis–Hastings step; tuning direction
+
+Theorems about `TT.C15.mcmcStep` / `run` (`TTModel/C15_MCMC.lean`, the machine the driver
+`drv_c15` executes against the real `MCMC.run`) and about the tuning expressions the translator
+`tr_tuning.py` regenerates from the operators' source on every run (`TTGen/C15_Tuning.lean`).
+-/
 namespace TTProps.C15
+open TT TT.C15 TTGen.C15_Tuning
+
+/-- the translator recognised every getter / setter / `tune` -/
+theorem translator_recognised : translatorOk = true := by decide
+
+/-! ## the run loop -/
+
+/-- every operator's parameter indices point into the state -/
+def WF {α : Type} (m : Machine α) : Prop :=
+  ∀ op ∈ m.ops, ∀ k ∈ op.pidx, k < m.state.length
+
+section loop
+set_option linter.unusedSectionVars false
+variable {α : Type} [Add α] [Sub α] [Mul α] [Div α] [Neg α] [Zero α] [One α] [FromNat α]
+  [Trans α] [LT α] [DecidableLT α]
+
+/-- unfolding of one iteration (all the theorems below go through this) -/
+theorem mcmcStep_eq (env : Env α) (half : α) (m : Machine α) (tape : Tape α) (oi : Nat)
+    (is : List Nat) (op : Op α) (ht : tape.ints = oi :: is) (hop : m.ops[oi]? = some op) :
+    let tape1 : Tape α := { tape with ints := is }
+    let saved := savedOf m.state op.pidx
+    let pr := propose env half op m.state tape1
+    let d := decideMove env m.logJoint pr.1 pr.2.1 pr.2.2
+    let stateAfter := if d.accepted then pr.1 else setMany pr.1 op.pidx saved
+    let logJointAfter := if d.accepted then d.lpValue else m.logJoint
+    let op2 := tune env (if d.accepted then op.onAccept else op.onReject) d.accProb
+    mcmcStep env half m tape = some
+      ({ state := stateAfter, logJoint := logJointAfter, ops := m.ops.set oi op2,
+         epoch := m.epoch + 1,
+         acceptTotal := if d.accepted then m.acceptTotal + 1 else m.acceptTotal },
+       d.tape,
+       { opIdx := oi, proposed := pr.1, hr := pr.2.1, lpProposed := d.lpProposed,
+         accProb := d.accProb, accepted := d.accepted, uUsed := d.uUsed,
+         stateAfter := stateAfter, logJointAfter := logJointAfter,
+         logged := env.target stateAfter, scaleAfter := op2.scale }) := by
+  simp only [mcmcStep, ht, hop]
+
+/-- **reject_restores**: after a rejected move every parameter of the run has exactly the value
+it had before the proposal — for every operator kind (scaler, sliding window, Dirichlet, HMC,
+block update with its two parameters), every tape, every target. -/
+theorem reject_restores (env : Env α) (half : α) (m : Machine α) (tape : Tape α)
+    (hwf : WF m) (m' : Machine α) (tape' : Tape α) (r : Rec α)
+    (h : mcmcStep env half m tape = some (m', tape', r)) (hrej : r.accepted = false) :
+    m'.state = m.state ∧ m'.logJoint = m.logJoint := by
+  unfold mcmcStep at h
+  split at h
+  · exact absurd h (by simp)
+  · rename_i oi is ht
+    split at h
+    · exact absurd h (by simp)
+    · rename_i op hop
+      simp only [Option.some.injEq, Prod.mk.injEq] at h
+      obtain ⟨hm, _, hr⟩ := h
+      subst hm; subst hr
+      simp only at hrej
+      simp only [hrej, Bool.false_eq_true, ↓reduceIte, and_true]
+      have hf := propose_frame env half op m.state { tape with ints := is }
+      exact restore_of_frame op.pidx m.state _ hf.1 hf.2
+        (hwf op (List.mem_of_getElem? hop))
+
+/-- degenerate branches (`isinf(hastings_ratio)`, or `log_joint_proposed` nan/inf) reject with
+acceptance probability 0 and draw no uniform -/
+theorem degenerate_rejects (env : Env α) (logJoint : α) (prop : Params α) (hr : HR α)
+    (tape : Tape α) (h : hr = .inf ∨ env.target prop = .bad) :
+    (decideMove env logJoint prop hr tape).accepted = false
+    ∧ (decideMove env logJoint prop hr tape).uUsed = none
+    ∧ (decideMove env logJoint prop hr tape).tape = tape := by
+  unfold decideMove
+  cases hr with
+  | inf => simp
+  | fin x =>
+    cases h with
+    | inl h => cases h
+    | inr h => simp [h]
+
+/-- the invariant the run carries -/
+def Inv (env : Env α) (m : Machine α) : Prop :=
+  env.target m.state = .fin m.logJoint ∧ WF m
+
+theorem tune_pidx (env : Env α) (op : Op α) (a : α) : (tune env op a).pidx = op.pidx := by
+  unfold tune; split <;> rfl
+
+theorem inv_step (env : Env α) (half : α) (m : Machine α) (tape : Tape α) (hinv : Inv env m)
+    (m' : Machine α) (tape' : Tape α) (r : Rec α)
+    (h : mcmcStep env half m tape = some (m', tape', r)) :
+    Inv env m' ∧ r.logged = .fin r.logJointAfter ∧ r.stateAfter = m'.state
+      ∧ r.logJointAfter = m'.logJoint := by
+  obtain ⟨hcar, hwf⟩ := hinv
+  unfold mcmcStep at h
+  split at h
+  · exact absurd h (by simp)
+  · rename_i oi is ht
+    split at h
+    · exact absurd h (by simp)
+    · rename_i op hop
+      simp only [Option.some.injEq, Prod.mk.injEq] at h
+      obtain ⟨hm, _, hr⟩ := h
+      subst hm; subst hr
+      have hmem : op ∈ m.ops := List.mem_of_getElem? hop
+      have hf := propose_frame env half op m.state { tape with ints := is }
+      -- the state after the move and the carried value
+      have key : env.target
+          (if (decideMove env m.logJoint (propose env half op m.state { tape with ints := is }).1
+                (propose env half op m.state { tape with ints := is }).2.1
+                (propose env half op m.state { tape with ints := is }).2.2).accepted
+           then (propose env half op m.state { tape with ints := is }).1
+           else setMany (propose env half op m.state { tape with ints := is }).1 op.pidx
+                  (savedOf m.state op.pidx))
+          = .fin (if (decideMove env m.logJoint (propose env half op m.state { tape with ints := is }).1
+                (propose env half op m.state { tape with ints := is }).2.1
+                (propose env half op m.state { tape with ints := is }).2.2).accepted
+              then (decideMove env m.logJoint (propose env half op m.state { tape with ints := is }).1
+                (propose env half op m.state { tape with ints := is }).2.1
+                (propose env half op m.state { tape with ints := is }).2.2).lpValue
+              else m.logJoint) := by
+        generalize (propose env half op m.state { tape with ints := is }) = pr at hf ⊢
+        obtain ⟨prop, hrr, tp⟩ := pr
+        simp only at hf ⊢
+        by_cases hacc : (decideMove env m.logJoint prop hrr tp).accepted = true
+        · simp only [hacc, ↓reduceIte]
+          -- accepted: only in the non-degenerate branch, where lpValue is the target at prop
+          unfold decideMove at hacc ⊢
+          cases hrr with
+          | inf => simp at hacc
+          | fin x =>
+            simp only at hacc ⊢
+            cases htg : env.target prop with
+            | bad => simp [htg] at hacc
+            | fin lp =>
+              simp only [htg] at hacc ⊢
+              cases hu : tp.rands with
+              | nil => simp [hu] at hacc
+              | cons u rs => simp
+        · simp only [hacc, Bool.false_eq_true, ↓reduceIte]
+          rw [restore_of_frame op.pidx m.state prop hf.1 hf.2 (hwf op hmem)]
+          exact hcar
+      refine ⟨⟨key, ?_⟩, key, rfl, rfl⟩
+      -- well-formedness is preserved: lengths and index lists do not change
+      intro op' hop' k hk
+      have hlen : (if (decideMove env m.logJoint (propose env half op m.state { tape with ints := is }).1
+                (propose env half op m.state { tape with ints := is }).2.1
+                (propose env half op m.state { tape with ints := is }).2.2).accepted
+           then (propose env half op m.state { tape with ints := is }).1
+           else setMany (propose env half op m.state { tape with ints := is }).1 op.pidx
+                  (savedOf m.state op.pidx)).length = m.state.length := by
+        split
+        · exact hf.1
+        · rw [setMany_length]; exact hf.1
+      simp only at hop' ⊢
+      rw [hlen]
+      rcases List.mem_or_eq_of_mem_set hop' with h1 | h1
+      · exact hwf op' h1 k hk
+      · subst h1
+        rw [tune_pidx] at hk
+        have : (if (decideMove env m.logJoint (propose env half op m.state { tape with ints := is }).1
+                (propose env half op m.state { tape with ints := is }).2.1
+                (propose env half op m.state { tape with ints := is }).2.2).accepted = true
+            then op.onAccept else op.onReject).pidx = op.pidx := by split <;> rfl
+        rw [this] at hk
+        exact hwf op hmem k hk
+
+/-- **carried_density_invariant**: in every run, of any length, with any operator schedule and
+accept/reject sequence (any tape), after every iteration the carried `log_joint` equals the
+target evaluated at the current state, and every logged row is self-consistent: the density a
+logger writes is the carried value, which is the target at the logged parameter values.
+Hypothesis: the initial `log_joint` is the (finite) target at the initial state, and evaluation
+is a function of the state ("fresh", C11). -/
+theorem carried_density_invariant (env : Env α) (half : α) :
+    ∀ (n : Nat) (m : Machine α) (tape : Tape α), Inv env m →
+      Inv env (run env half n m tape).1
+      ∧ ∀ r ∈ (run env half n m tape).2,
+          r.logged = .fin r.logJointAfter ∧ env.target r.stateAfter = .fin r.logJointAfter := by
+  intro n
+  induction n with
+  | zero => intro m tape h; exact ⟨h, fun r hr => by simp [run] at hr⟩
+  | succ n ih =>
+    intro m tape h
+    unfold run
+    cases hs : mcmcStep env half m tape with
+    | none => exact ⟨h, fun r hr => by simp at hr⟩
+    | some res =>
+      obtain ⟨m', tape', r⟩ := res
+      have hstep := inv_step env half m tape h m' tape' r hs
+      have := ih m' tape' hstep.1
+      simp only
+      refine ⟨this.1, fun r' hr' => ?_⟩
+      rcases List.mem_cons.mp hr' with e | e
+      · subst e
+        refine ⟨hstep.2.1, ?_⟩
+        rw [hstep.2.2.1, hstep.2.2.2]
+        exact hstep.1.1
+      · exact this.2 r' e
+
+end loop
+
+/-! ## the accept rule (over ℝ) -/
+
+section accept
+
+/-- **accept_rule**: in the non-degenerate branch the move is accepted exactly when the uniform
+draw is below `min(1, exp(Δ + hr))`, `Δ` = target at the proposal minus the carried value. -/
+theorem accept_rule (env : Env ℝ) (logJoint : ℝ) (prop : Params ℝ) (h lp u : ℝ) (rs : List ℝ)
+    (tape : Tape ℝ) (htg : env.target prop = .fin lp) (hu : tape.rands = u :: rs) :
+    (decideMove env logJoint prop (.fin h) tape).accepted = true
+      ↔ u < min 1 (Real.exp ((lp - logJoint) + h)) := by
+  have hmin : Real.exp (if (lp - logJoint) + h < 0 then (lp - logJoint) + h else 0)
+      = min 1 (Real.exp ((lp - logJoint) + h)) := by
+    split
+    · rename_i hneg
+      rw [min_eq_right]
+      exact le_of_lt (by rw [← Real.exp_zero]; exact Real.exp_lt_exp.mpr hneg)
+    · rename_i hnn
+      rw [Real.exp_zero, min_eq_left]
+      rw [← Real.exp_zero]; exact Real.exp_le_exp.mpr (not_lt.mp hnn)
+  simp only [decideMove, htg, hu, decide_eq_true_eq, trans_exp_real, hmin]
+
+/-- the acceptance probability handed to `tune` is that same `min(1, exp(Δ + hr))` -/
+theorem accept_prob (env : Env ℝ) (logJoint : ℝ) (prop : Params ℝ) (h lp u : ℝ) (rs : List ℝ)
+    (tape : Tape ℝ) (htg : env.target prop = .fin lp) (hu : tape.rands = u :: rs) :
+    (decideMove env logJoint prop (.fin h) tape).accProb
+      = min 1 (Real.exp ((lp - logJoint) + h)) := by
+  simp only [decideMove, htg, hu, trans_exp_real]
+  split
+  · rename_i hneg
+    rw [min_eq_right]
+    exact le_of_lt (by rw [← Real.exp_zero]; exact Real.exp_lt_exp.mpr hneg)
+  · rename_i hnn
+    rw [Real.exp_zero, min_eq_left]
+    rw [← Real.exp_zero]; exact Real.exp_le_exp.mpr (not_lt.mp hnn)
+
+end accept
+
+/-! ## Hastings ratios (over ℝ) -/
+
+section hastings
+
+/-- density at `x'` of the scaler kernel from `x`: `x' = x·s`, `s ~ U[a, 1/a]` -/
+noncomputable def scalerDensity (a x x' : ℝ) : ℝ :=
+  if a ≤ x' / x ∧ x' / x ≤ 1 / a then 1 / ((1 / a - a) * |x|) else 0
+
+/-- where that density comes from: for `x > 0` the distribution function of `x·s` is
+`t ↦ (t/x − a)/(1/a − a)` on the support, and its derivative is `scalerDensity a x t` -/
+theorem scaler_density_is_kernel (a x t : ℝ) (hx : 0 < x) (ha : 0 < a) (ha1 : a < 1)
+    (hs : a ≤ t / x ∧ t / x ≤ 1 / a) :
+    HasDerivAt (fun t => (t / x - a) / (1 / a - a)) (scalerDensity a x t) t := by
+  have hd : 1 / a - a ≠ 0 := by
+    have : 1 < 1 / a := by rw [lt_div_iff₀ ha]; linarith
+    linarith
+  have h1 : HasDerivAt (fun t : ℝ => t / x - a) (1 / x) t :=
+    ((hasDerivAt_id' t).div_const x).sub_const a
+  have h2 := h1.div_const (1 / a - a)
+  have hx' : x ≠ 0 := hx.ne'
+  have key : scalerDensity a x t = 1 / x / (1 / a - a) := by
+    unfold scalerDensity
+    rw [if_pos hs, abs_of_pos hx]
+    generalize 1 / a - a = D at hd
+    field_simp
+  rw [key]
+  exact h2
+
+/-- **scaler_hr**: for the uniform-multiplier kernel as coded (ONE coordinate `x` of one
+parameter multiplied by `s ∈ [a, 1/a]`; the uniformly chosen index is the same in both
+directions), `log q(x|x′)/q(x′|x) = −log s`: the value `ScalerOperator._step` returns. -/
+theorem scaler_hr (a x s : ℝ) (ha : 0 < a) (ha1 : a < 1) (hx : x ≠ 0) (hs : a ≤ s ∧ s ≤ 1 / a) :
+    Real.log (scalerDensity a (x * s) x / scalerDensity a x (x * s)) = -Real.log s := by
+  have hs0 : 0 < s := lt_of_lt_of_le ha hs.1
+  have hd : 0 < 1 / a - a := by
+    have : 1 < 1 / a := by rw [lt_div_iff₀ ha]; linarith
+    linarith
+  have e1 : x * s / x = s := by field_simp
+  have e2 : x / (x * s) = 1 / s := by field_simp
+  have hfwd : a ≤ x * s / x ∧ x * s / x ≤ 1 / a := by rw [e1]; exact hs
+  have hbwd : a ≤ x / (x * s) ∧ x / (x * s) ≤ 1 / a := by
+    rw [e2]
+    constructor
+    · rw [le_div_iff₀ hs0]
+      have := hs.2
+      rw [le_div_iff₀ ha] at this
+      linarith [mul_comm s a]
+    · exact one_div_le_one_div_of_le ha hs.1
+  simp only [scalerDensity, hfwd, hbwd, and_self, ↓reduceIte]
+  have hxa : 0 < |x| := abs_pos.mpr hx
+  rw [abs_mul, abs_of_pos hs0]
+  have h1 := hd.ne'
+  have h2 := hxa.ne'
+  have h3 := hs0.ne'
+  generalize 1 / a - a = D at h1
+  generalize |x| = X at h2
+  have : 1 / (D * (X * s)) / (1 / (D * X)) = s⁻¹ := by
+    field_simp
+  rw [this, Real.log_inv]
+
+/-- the model's scaler proposal returns `−log s` for the `s` it multiplies with, and
+`s = a + r(1/a − a) ∈ [a, 1/a]` for `r ∈ [0,1]` -/
+theorem proposeScaler_returns (op : Op ℝ) (st : Params ℝ) (tape : Tape ℝ) (r : ℝ) (rs : List ℝ)
+    (i1 i2 k : ℕ) (is : List ℕ) (hr : tape.rands = r :: rs) (hi : tape.ints = i1 :: i2 :: is)
+    (hk : op.pidx[i1]? = some k) :
+    let s := op.scale + r * (1 / op.scale - op.scale)
+    proposeScaler op st tape
+      = (st.set k ((st.getD k []).modify i2 (· * s)), .fin (-Real.log s),
+          { tape with rands := rs, ints := is }) := by
+  simp [proposeScaler, hr, hi, hk]
+
+theorem scaler_multiplier_range (a r : ℝ) (ha : 0 < a) (ha1 : a < 1) (hr0 : 0 ≤ r) (hr1 : r ≤ 1) :
+    a ≤ a + r * (1 / a - a) ∧ a + r * (1 / a - a) ≤ 1 / a := by
+  have hd : 0 < 1 / a - a := by
+    have : 1 < 1 / a := by rw [lt_div_iff₀ ha]; linarith
+    linarith
+  constructor
+  · nlinarith
+  · nlinarith
+
+/-- density of the sliding-window kernel: `x' = x + w(r − 1/2)`, `r ~ U[0,1]` -/
+noncomputable def windowDensity (w x x' : ℝ) : ℝ := if |x' - x| ≤ w / 2 then 1 / w else 0
+
+/-- **window_hr**: the kernel is symmetric, so the log ratio is the `0` the code returns -/
+theorem window_hr (w x x' : ℝ) (hw : 0 < w) (hin : |x' - x| ≤ w / 2) :
+    Real.log (windowDensity w x' x / windowDensity w x x') = 0 := by
+  have h2 : |x - x'| ≤ w / 2 := by rw [abs_sub_comm]; exact hin
+  simp only [windowDensity, hin, h2, ↓reduceIte]
+  rw [div_self (by positivity), Real.log_one]
+
+theorem proposeWindow_returns (op : Op ℝ) (st : Params ℝ) (tape : Tape ℝ) (half r : ℝ)
+    (rs : List ℝ) (i1 i2 k : ℕ) (is : List ℕ) (hr : tape.rands = r :: rs)
+    (hi : tape.ints = i1 :: i2 :: is) (hk : op.pidx[i1]? = some k) :
+    proposeWindow half op st tape
+      = (st.set k ((st.getD k []).modify i2 (· + op.scale * (r - half))), .fin 0,
+          { tape with rands := rs, ints := is }) := by
+  simp [proposeWindow, hr, hi, hk]
+
+/-- **dirichlet_hr**: the returned value is `log q(x|x′) − log q(x′|x)` for the kernel
+`q(·|x) = Dirichlet(scaler·x)` the new value was drawn from (`Env.dirLogProb` is the Dirichlet
+log-density, any function here) -/
+theorem dirichlet_hr (env : Env ℝ) (op : Op ℝ) (st : Params ℝ) (tape : Tape ℝ) (newv : List ℝ)
+    (ds : List (List ℝ)) (k : ℕ) (ks : List ℕ) (hd : tape.dirs = newv :: ds)
+    (hp : op.pidx = k :: ks) :
+    let old := st.getD k []
+    let q := fun (cur nxt : List ℝ) => env.dirLogProb (cur.map (· * op.scale)) nxt
+    proposeDirichlet env op st tape
+      = (st.set k newv, .fin (q newv old - q old newv), { tape with dirs := ds }) := by
+  simp [proposeDirichlet, hd, hp]
+
+end hastings
+
+/-! ## tuning direction -/
+
+section tuning
+
+/-- the generated Robbins–Monro step is `adaptable + (acc − target)/(2 + count)` -/
+theorem rm_formula (x acc tgt : ℝ) (count : ℕ) :
+    genRm x acc tgt (count : ℝ) = x + (acc - tgt) / (2 + count) := by
+  simp [genRm, rmExpr, Expr.eval, envTune, litVal]
+
+/-- acceptance at or above target moves the adaptable parameter up (or not at all) -/
+theorem rm_nonneg (x acc tgt : ℝ) (count : ℕ) (h : tgt ≤ acc) :
+    x ≤ genRm x acc tgt (count : ℝ) := by
+  rw [rm_formula]
+  have : 0 ≤ (acc - tgt) / (2 + count) := div_nonneg (by linarith) (by positivity)
+  linarith
+
+theorem scaler_eval (a δ : ℝ) :
+    genSet .scaler (genGet .scaler a + δ) = 1 / (Real.exp (Real.log (1 / a - 1) + δ) + 1) := by
+  simp [genSet, genGet, specOf, TuningSpec.set, TuningSpec.get, scaler, Expr.eval, envField,
+    envValue, litVal]
+
+theorem window_eval (w δ : ℝ) :
+    genSet .window (genGet .window w + δ) = Real.exp (Real.log w + δ) := by
+  simp [genSet, genGet, specOf, TuningSpec.set, TuningSpec.get, window, Expr.eval, envField,
+    envValue]
+
+theorem hmc_eval (w δ : ℝ) : genSet .hmc (genGet .hmc w + δ) = Real.exp (Real.log w + δ) := by
+  simp [genSet, genGet, specOf, TuningSpec.set, TuningSpec.get, hmc, Expr.eval, envField,
+    envValue]
+
+theorem block_eval (s δ : ℝ) :
+    genSet .block (genGet .block s + δ)
+      = 1 + (Real.sqrt (s - 1) + δ) * (Real.sqrt (s - 1) + δ) := by
+  simp [genSet, genGet, specOf, TuningSpec.set, TuningSpec.get, block, Expr.eval, envField,
+    envValue, litVal]
+
+/-- (fixed code, F11) `adaptable = −log scaler`, `scaler = exp(−adaptable)` -/
+theorem dirichlet_eval (c δ : ℝ) :
+    genSet .dirichlet (genGet .dirichlet c + δ) = Real.exp (-(-Real.log c + δ)) := by
+  simp [genSet, genGet, specOf, TuningSpec.set, TuningSpec.get, dirichlet, Expr.eval, envField,
+    envValue]
+
+/-- admissible proposal scales per operator kind -/
+def ValidScale : Kind → ℝ → Prop
+  | .scaler, a => 0 < a ∧ a < 1
+  | .window, w => 0 < w
+  | .dirichlet, c => 0 < c
+  | .hmc, e => 0 < e
+  | .block, s => 1 ≤ s
+
+/-- `Bolder k new old`: proposals with scale `new` are at least as bold as with `old`.
+* scaler: multiplier interval `[a, 1/a]` — wider for smaller `a` (`scaler_interval_widens`);
+* sliding window: width; HMC: leapfrog step size (trajectory length `steps·ε`);
+* Dirichlet: proposal `Dir(c·x)` has coordinate variance `xᵢ(1−xᵢ)/(c+1)` — larger for smaller
+  concentration scale `c` (`dirichlet_variance_grows`);
+* block update: precision multiplier range `[1/s, s]` — wider for larger `s`. -/
+def Bolder : Kind → ℝ → ℝ → Prop
+  | .scaler, a', a => a' ≤ a
+  | .window, w', w => w ≤ w'
+  | .dirichlet, c', c => c' ≤ c
+  | .hmc, e', e => e ≤ e'
+  | .block, s', s => s ≤ s'
+
+theorem scaler_interval_widens (a a' : ℝ) (ha' : 0 < a') (h : a' ≤ a) :
+    a' ≤ a ∧ 1 / a ≤ 1 / a' := ⟨h, one_div_le_one_div_of_le ha' h⟩
+
+theorem dirichlet_variance_grows (c c' x : ℝ) (hc' : 0 < c') (h : c' ≤ c) (hx0 : 0 ≤ x)
+    (hx1 : x ≤ 1) : x * (1 - x) / (c + 1) ≤ x * (1 - x) / (c' + 1) := by
+  apply div_le_div_of_nonneg_left (mul_nonneg hx0 (by linarith)) (by linarith) (by linarith)
+
+/-- **rm_direction**: for EVERY operator kind, with the getter/setter expressions regenerated
+from the source, moving the adaptable parameter up by any `δ ≥ 0` never makes the proposal more
+timid, and keeps the scale admissible. -/
+theorem rm_direction (k : Kind) (x δ : ℝ) (hv : ValidScale k x) (hδ : 0 ≤ δ) :
+    Bolder k (genSet k (genGet k x + δ)) x ∧ ValidScale k (genSet k (genGet k x + δ)) := by
+  have hd : 1 ≤ Real.exp δ := Real.one_le_exp hδ
+  cases k with
+  | scaler =>
+    obtain ⟨ha, ha1⟩ := hv
+    simp only [Bolder, ValidScale]
+    rw [scaler_eval]
+    have h1 : 0 < 1 / x - 1 := by
+      have : 1 < 1 / x := by rw [lt_div_iff₀ ha]; linarith
+      linarith
+    have he : Real.exp (Real.log (1 / x - 1) + δ) = (1 / x - 1) * Real.exp δ := by
+      rw [Real.exp_add, Real.exp_log h1]
+    have hden : 1 / x ≤ Real.exp (Real.log (1 / x - 1) + δ) + 1 := by rw [he]; nlinarith
+    have hpos : 0 < Real.exp (Real.log (1 / x - 1) + δ) + 1 := by positivity
+    have hxx : x * (1 / x) = 1 := by field_simp
+    have hle : 1 / (Real.exp (Real.log (1 / x - 1) + δ) + 1) ≤ x := by
+      rw [div_le_iff₀ hpos]; nlinarith
+    refine ⟨hle, by positivity, lt_of_le_of_lt hle ha1⟩
+  | window =>
+    simp only [Bolder, ValidScale] at hv ⊢
+    rw [window_eval, Real.exp_add, Real.exp_log hv]
+    exact ⟨by nlinarith, by positivity⟩
+  | hmc =>
+    simp only [Bolder, ValidScale] at hv ⊢
+    rw [hmc_eval, Real.exp_add, Real.exp_log hv]
+    exact ⟨by nlinarith, by positivity⟩
+  | block =>
+    simp only [Bolder, ValidScale] at hv ⊢
+    rw [block_eval]
+    have h0 : 0 ≤ x - 1 := by linarith
+    have hsq := Real.mul_self_sqrt h0
+    have hnn := Real.sqrt_nonneg (x - 1)
+    exact ⟨by nlinarith, by nlinarith⟩
+  | dirichlet =>
+    simp only [Bolder, ValidScale] at hv ⊢
+    rw [dirichlet_eval]
+    have : Real.exp (-(-Real.log x + δ)) = x * Real.exp (-δ) := by
+      rw [neg_add, neg_neg, Real.exp_add, Real.exp_log hv]
+    rw [this]
+    have hle : Real.exp (-δ) ≤ 1 := by
+      rw [← Real.exp_zero]; exact Real.exp_le_exp.mpr (by linarith)
+    have hpos : 0 < Real.exp (-δ) := Real.exp_pos _
+    exact ⟨by nlinarith, by positivity⟩
+
+/-- the environment `MCMCOperator.tune` runs in: generated getters, setters, Robbins–Monro step -/
+noncomputable def genEnv (env : Env ℝ) : Env ℝ :=
+  { env with get := genGet, set := genSet, rm := genRm }
+
+/-- **tune_never_more_timid**: one call of `tune` with an acceptance probability at or above
+the operator's target never makes its next proposals more timid — every operator kind, every
+admissible scale, every adaptation count; with adaptation disabled the scale does not move. -/
+theorem tune_never_more_timid (env : Env ℝ) (op : Op ℝ) (acc : ℝ)
+    (hv : ValidScale op.kind op.scale) (h : op.target ≤ acc) :
+    Bolder op.kind (tune (genEnv env) op acc).scale op.scale
+      ∧ ValidScale op.kind (tune (genEnv env) op acc).scale := by
+  unfold tune
+  split
+  · refine ⟨?_, hv⟩
+    cases op.kind <;> simp [Bolder]
+  · simp only [genEnv]
+    have hδ : 0 ≤ (acc - op.target) / (2 + (op.adaptCount : ℝ)) :=
+      div_nonneg (by linarith) (by positivity)
+    have := rm_direction op.kind op.scale _ hv hδ
+    rw [show (FromNat.ofNat op.adaptCount : ℝ) = (op.adaptCount : ℝ) from rfl, rm_formula]
+    exact this
+
+/-- non-vacuity: a Dirichlet operator at scale 2 told its acceptance was 1 (target 0.24) -/
+example : ValidScale .dirichlet 2 ∧ ((24 : ℝ) / 100 ≤ 1) := by
+  constructor
+  · show (0 : ℝ) < 2
+    norm_num
+  · norm_num
+
+end tuning
+
 end TTProps.C15
